@@ -19,11 +19,22 @@ theorem lexLine_token_spans (src : Text) (toks : List Token) (h : lexLine src = 
   have hs := lineLoop_spec (src.length + 1) { src := src, pos := 0 } [] (Nat.lt_succ_self _)
   unfold lexLine at h
   rw [h] at hs
-  obtain ⟨new, hres, hw, t, h1, h2, h3, h4⟩ := hs
+  obtain ⟨new, hres, hw, ⟨t, h1, h2, h3, h4⟩, _⟩ := hs
   simp only [List.nil_append] at hres
   subst hres
   simp only [LS.total, Nat.zero_add] at hw h3 h4
   exact ⟨hw, t, h1, h2, h3, h4⟩
+
+/-- **number tokens fit**: every `Number` token the lexer hands over holds at least one digit and is below 2^64 - so none
+    of the `parse::<usize>().unwrap()` calls of the parser and the interpreter can fail (the repair of D2) -/
+theorem lexLine_numbers_fit (src : Text) (toks : List Token) (h : lexLine src = .ok toks) : ∀ t ∈ toks, NumOK t := by
+  have hs := lineLoop_spec (src.length + 1) { src := src, pos := 0 } [] (Nat.lt_succ_self _)
+  unfold lexLine at h
+  rw [h] at hs
+  obtain ⟨new, hres, _, _, hnum⟩ := hs
+  simp only [List.nil_append] at hres
+  subst hres
+  exact hnum
 
 /-- every token's span is inside `[0, len + 1]` and non-empty -/
 theorem wellSpaced_mem {lo total : Nat} {toks : List Token} (h : WellSpaced lo total toks) :
